@@ -19,6 +19,10 @@ func Unmarshal(b []byte, ty cty.Type) (cty.Value, error) {
 	r := bytes.NewReader(b)
 	dec := msgpack.NewDecoder(r)
 
+	// Optional attribute annotations are meaningful only as a conversion
+	// target, and the type of a value must never carry them.
+	ty = ty.WithoutOptionalAttributesDeep()
+
 	var path cty.Path
 	return unmarshal(dec, ty, path)
 }
